@@ -114,7 +114,7 @@ func (r C15Rule) text() string {
 func init() {
 	register(&Prop{
 		ID:   "C15",
-		Rule: "rule sets of 2-7 rules that all use the same two local names: writers (x = uniq(); gate(); chk(x)), readers that never assign (must fail in every model and call), conditional writers driven by an injected flag that changes between calls, writers whose local holds an object they created and use as a method receiver, writers/readers of a shared injected struct field, rules whose forRange key variable is a pointer-injected name and rules that read that name; 2-3 calls per case over all execution models of engine and pool, DAG layers that repeat a rule, 2-3 simultaneous identical pool requests, writers parked on Hold gates between assignment and read; oracle: every chk receives exactly the value its own execution drew (multiset of drawn and checked values per rule equal, no value seen twice), a reader that never assigned never gets a value, a conditional writer fails whenever its flag is off even if an earlier call or a concurrent execution assigned the local, a shared field written by an earlier rule of a sorted call is seen by the later rule, an injected forRange key holds the last key afterwards - for the host, for the looping rule and for later rules of a sorted call. Non-trivial: >= 2 rules (or >= 2 concurrent executions of one rule) share a local name and a writer was parked; distinct by case hash",
+		Rule: "rule sets of 2-7 rules that all use the same two local names: writers (x = uniq(); gate(); chk(x)), readers that never assign (must fail in every model and call), conditional writers driven by an injected flag that changes between calls, writers whose local holds an object they created and use as a method receiver, writers/readers of a shared injected struct field, rules whose forRange key variable is a pointer-injected name and rules that read that name; 2-3 calls per case over all execution models of engine and pool, DAG layers that repeat a rule, 2-3 simultaneous identical pool requests, writers parked on Hold gates between assignment and read; oracle: every chk receives exactly the value its own execution drew (multiset of drawn and checked values per rule equal, no value seen twice), a reader that never assigned never gets a value, a conditional writer fails whenever its flag is off even if an earlier call or a concurrent execution assigned the local, a shared field written by an earlier rule of a sorted call is seen by the later rule, an injected forRange key holds the last key afterwards - for the host, for the looping rule and for later rules of a sorted call. Two pointers are injected under the names X and Y, which differ only in case from the locals: they must keep their values and never serve as the locals. Non-trivial: >= 2 rules (or >= 2 concurrent executions of one rule) share a local name and a writer was parked; distinct by case hash",
 		New:  func() interface{} { return &C15Case{} },
 		Gen: func(t *rapid.T) interface{} {
 			c := &C15Case{QuiesMs: 2}
@@ -201,6 +201,11 @@ func checkC15(ci interface{}, x *Ctx) {
 	apis["seek"] = func(n string, v interface{}) { env.log.Add("SK", n, deref(v)) }
 	apis["touchk"] = func(n string, v interface{}) { env.log.Add("TOUCH", n, deref(v)) }
 	skv := make([]int64, 8) // the host variables behind the injected name sk (one per parallel request)
+	// X and Y are injected pointers whose names differ only in case from the locals x and y:
+	// names are case sensitive, so no rule ever touches them
+	caseTwin := []int64{-77, -78}
+	apis["X"] = &caseTwin[0]
+	apis["Y"] = &caseTwin[1]
 	flags := &c11Flags{}
 	shared := &c15Shared{}
 	var text strings.Builder
@@ -411,6 +416,9 @@ func checkC15(ci interface{}, x *Ctx) {
 					}
 				}
 			}
+		}
+		if caseTwin[0] != -77 || caseTwin[1] != -78 {
+			x.Violation("case-twin-written/"+shape, "call %d %s: the injected variables X / Y (never named by any rule; the rules use the locals x / y) hold %d / %d afterwards, want -77 / -78: a local was stored into an injected name that differs only in case\ntrace %v", ci2, cc.Call, caseTwin[0], caseTwin[1], trace)
 		}
 		if x.Failed() {
 			return
